@@ -317,6 +317,29 @@ def run_config_change(ctx):
     CONF = [{"dec": ",", "thou": "."}, {"dec": ".", "thou": ","}, {"dec": ".", "thou": ""}, {"dec": ",", "thou": ""}]
     LINES = ["1.500 + 1", "1,500 + 1", "2,5 * 2", "2.5 * 2", "3.25 * 2", "-(1.500) * 2", "10,5% of 200", "10.5% of 200", "1.234,5 usd + 1 usd", "1,234.5 usd + 1 usd",
              "2,5 km to m", "2.5 km to m", "x = 1.250\nx / 2", "12,5 eur", "1.000 kg to g", "0,5 + 0.5", "10 usd to eur", "11:30 EST to CET", "5 march 2020 + 2 days"]
+    UNIT_LINES = ["10 inch to mm", "2 inch to mm", "1536 byte to mb", "1 oz to g", "100 g + 1 oz", "1,5 inch to mm", "1.5 inch to mm", "2,5 km to m", "25,4 mm to inch"]
+    LINES = LINES + UNIT_LINES[:5]
+    # the same line before and after a change of the separators, also in the transient configurations a single setter call leaves
+    # (decimal = thousands): whatever an evaluation remembered must not outlive the configuration it was computed under
+    curated = []
+    for L_ in UNIT_LINES:
+        for first in ({"dec": "."}, {"thou": ","}, {"dec": ".", "thou": ","}, {"dec": ".", "thou": ""}, {}):
+            for c2 in CONF:
+                curated.append(([dict(op="cfg", **first)], [{"op": "exec", "lang": "en", "text": L_}], [dict(op="cfg", **c2)], [{"op": "exec", "lang": "en", "text": L_}]))
+    if ctx.quick():
+        curated = curated[::2] + rng.sample(curated, 20)
+    for ci, (setc1, pre, setc2, probes) in enumerate(curated):
+        a = C.run_impl([{"op": "reset"}] + setc1 + pre + setc2 + probes + [{"op": "reset"}])
+        b = C.run_impl([{"op": "reset"}] + setc2 + probes + [{"op": "reset"}])
+        ra = [canon_lines(x) for x in a[1 + len(setc1) + len(pre) + len(setc2):-1]]
+        rb = [canon_lines(x) for x in b[1 + len(setc2):-1]]
+        ctx.seen(("config-change-curated", ci), True)
+        ctx.count("config-change-histories:same-line-before-and-after")
+        for p_, x, y in zip(probes, ra, rb):
+            if x != y:
+                ctx.oracle_fail({"class": "history-dependence:config-change", "what": f"{p_['text']!r} evaluates to {x} after it was evaluated under another configuration, to {y} on a fresh calculator with the same configuration",
+                                 "ops": [{"op": "reset"}] + setc1 + pre + setc2 + [p_, {"op": "reset"}]})
+                break
     for ci in range(ctx.n(120, 3000)):
         c1, c2 = rng.sample(CONF, 2)
         extra = rng.choice([[], [{"op": "cfg", "num": [rng.randint(0, 4), rng.random() < 0.5, True]}], [{"op": "tz", "v": rng.choice(["EST", "CET", "GMT+5:30"])}]])
